@@ -749,6 +749,10 @@ fn run_zone(out: &mut Out, r: &mut Rng, cx: &mut Ctx, idx: u64) {
     // records outside the zone, sorting before and after it
     if r.chance(2, 3) { let o = vec![b"0out".to_vec()]; if !lower(&o).ends_with(&lower(&apex)[..]) { add(r, &mut specs, &o, 1, 1, ttl); } }
     if r.chance(2, 3) { let mut o = vec![b"w".to_vec()]; let mut sib = lower(&apex); let k = sib.len() - 1; sib[k].push(b'z'); o.extend(sib); add(r, &mut specs, &o, 1, 1, ttl); }
+    // SortedRecords::from removes exact duplicates (owner compared ignoring case)
+    let dups = if r.chance(1, 2) { r.range(1, 3) } else { 0 };
+    let n0 = specs.len();
+    for _ in 0..dups { let mut d = specs[r.below(n0 as u64) as usize].clone(); d.owner = flip_case(r, &d.owner); specs.push(d); }
     shuffle(r, &mut specs);
     let mut zone: Vec<ZRec> = vec![];
     for chunk in specs.chunks(20) { match parse_zone(&message(chunk, false)) { Ok(z) => zone.extend(z), Err(_) => { cx.rejected_gen += 1; return; } } }
@@ -773,8 +777,13 @@ fn run_zone(out: &mut Out, r: &mut Rng, cx: &mut Ctx, idx: u64) {
         Ok(Err(e)) => { out.case(&case, "Err", false, "zone_selection"); out.check(false, "honest_sign_fails", &case, &e); return; }
         Ok(Ok(v)) => v,
     };
+    // the same through the model of SortedRecords::from (C13 sort + dedup), from the unsorted list
+    let mut ucase = format!("zu {} {} {}", hex(&wire(&apex)), keys.len(), zone.len());
+    for z in zone.iter() { ucase.push_str(&format!(" {} {} {} {}", hex(&wire(&labels_of(z.owner()))), z.rtype().to_int(),
+        if matches!(z.data(), ZoneRecordData::Unknown(_)) { 1 } else { 0 }, hex(&lib_canonical(z.data())))); }
     let obs: Vec<String> = rrsigs.iter().map(|rr| format!("{}:{}", hex(&wire(&labels_of(rr.owner()))), rr.data().type_covered().to_int())).collect();
     out.case(&case, &if obs.is_empty() { "-".to_string() } else { obs.join(" ") }, !obs.is_empty(), "zone_selection");
+    out.case(&ucase, &if obs.is_empty() { "-".to_string() } else { obs.join(" ") }, !obs.is_empty(), "zone_selection_unsorted");
     // ---- RFC 4035 2.2 from the zone content
     let lapex = lower(&apex);
     let below = |o: &Nm, c: &Nm| o.len() > c.len() && o[o.len() - c.len()..] == c[..];
@@ -806,7 +815,7 @@ fn run_zone(out: &mut Out, r: &mut Rng, cx: &mut Ctx, idx: u64) {
         let owner = labels_of(rr.owner());
         let ki = if f.kt == cx.keys[k1].dnskey.key_tag() && f.alg == cx.keys[k1].alg.to_int() { k1 } else { k2 };
         let dnskey = cx.keys[ki].dnskey.clone();
-        let mut members: Vec<ZRec> = zone.iter().filter(|z| lower(&labels_of(z.owner())) == lower(&owner) && z.rtype().to_int() == f.tc).cloned().collect();
+        let mut members: Vec<ZRec> = sorted.iter().filter(|z| lower(&labels_of(z.owner())) == lower(&owner) && z.rtype().to_int() == f.tc).cloned().collect();
         let c = format!("zone {} rrsig owner {} type {}", idx, hex(&wire(&owner)), f.tc);
         let sig2 = sig.clone();
         let sd = catch_mut(move || { let mut buf: Vec<u8> = vec![]; sig2.signed_data(&mut buf, &mut members[..]).unwrap(); buf });
@@ -814,8 +823,9 @@ fn run_zone(out: &mut Out, r: &mut Rng, cx: &mut Ctx, idx: u64) {
             Err(p) => out.check(false, "panic_signed_data", &c, &p),
             Ok(sd) => {
                 out.check(lib_verify(&sig, &dnskey, &sd) == Ok(true), "zone_rrsig_does_not_verify", &c, "");
-                let canon: Vec<(Nm, u16, u16, Vec<u8>)> = specs.iter().filter(|x| lower(&x.owner) == lower(&owner) && x.rtype == f.tc)
-                    .map(|x| (x.owner.clone(), x.rtype, x.class, raw_canonical(&x.data))).collect();
+                let mut canon: Vec<(Nm, u16, u16, Vec<u8>)> = specs.iter().filter(|x| lower(&x.owner) == lower(&owner) && x.rtype == f.tc)
+                    .map(|x| (lower(&x.owner), x.rtype, x.class, raw_canonical(&x.data))).collect();
+                canon.sort(); canon.dedup();
                 let rfc = rfc_signed_data(&f, &canon);
                 let cls = if sd == rfc { "signed_data_not_rfc".to_string() } else { not_rfc_class(&f, &canon, &sd) };
                 out.check(sd == rfc, &cls, &c, &format!("validator {} rfc {}", hex(&sd), hex(&rfc)));
@@ -949,6 +959,45 @@ fn run_key_parsing(out: &mut Out, r: &mut Rng) {
     }
 }
 
+/// the signer's validity period check across the 2^32 wrap (RFC 1982 through
+/// Timestamp's PartialOrd): boundary distances on a fixed RRset, fake key
+fn run_period(out: &mut Out, r: &mut Rng) {
+    const B: [u32; 9] = [0, 1, 2, 0x7FFF_FFFE, 0x7FFF_FFFF, 0x8000_0000, 0x8000_0001, 0xFFFF_FFFE, 0xFFFF_FFFF];
+    let inc = match r.below(3) { 0 => *r.pick(&B), 1 => r.pick(&B).wrapping_add(r.below(5) as u32).wrapping_sub(2), _ => r.u32() };
+    let exp = inc.wrapping_add(match r.below(3) { 0 => *r.pick(&B), 1 => r.pick(&B).wrapping_add(r.below(5) as u32).wrapping_sub(2), _ => r.u32() });
+    let fk = fake_key(r);
+    let apex: Nm = vec![b"p".to_vec()];
+    let owner: Nm = vec![b"w".to_vec(), b"p".to_vec()];
+    let recs = vec![Rec { owner: owner.clone(), class: 1, ttl: 300, rtype: 1, data: vec![Part::Raw(vec![192, 0, 2, 1])] }];
+    let Ok(zone) = parse_zone(&message(&recs, false)) else { return };
+    let key = SigningKey::new(to_name(&apex), 256, RecKeyRef(&fk));
+    let sorted_api = r.chance(1, 2);
+    let case = format!("{} {} {} {} {} {} 1{}", if sorted_api { "ss" } else { "sr" }, fk.alg.to_int(), fk.dnskey.key_tag(), hex(&wire(&apex)), inc, exp,
+        rec_words(&wire(&owner), 1, 1, 300, &[192, 0, 2, 1]));
+    out.begin(&case);
+    let res = catch_mut(|| {
+        let rrset = Rrset::new_from_owned(&zone).map_err(|_| "empty")?;
+        let rr = if sorted_api { sign_sorted_rrset_in(&key, &rrset, Timestamp::from(inc), Timestamp::from(exp), &mut vec![]) }
+                 else { sign_rrset(&key, &rrset, Timestamp::from(inc), Timestamp::from(exp)) };
+        rr.map_err(|e| match e { domain::dnssec::sign::error::SigningError::InvalidSignatureValidityPeriod(_, _) => "period", _ => "other" })
+    });
+    let obs = match res {
+        Err(_) => "Panic".to_string(),
+        Ok(Err(e)) => format!("Err {}", e),
+        Ok(Ok(rr)) => { let f = sig_fields(rr.data()); let scratch = fk.seen.borrow().clone().unwrap_or_default();
+            format!("Ok {} {} {} {} {} {} {} {} {}", f.tc, f.alg, f.labels, f.ottl, f.exp, f.inc, f.kt, hex(&wire(&f.signer)), hex(&scratch)) }
+    };
+    // RFC 1982 3.2 literally: exp < inc iff (exp < inc and inc - exp < 2^31) or (exp > inc and exp - inc > 2^31)
+    let (e, i) = (exp as u64, inc as u64);
+    let lt = (e < i && i - e < (1 << 31)) || (e > i && e - i > (1 << 31));
+    out.check((obs == "Err period") == lt && (obs.starts_with("Ok") == !lt), "validity_period_check_wrong", &case, &obs);
+    if let Some(rest) = obs.strip_prefix("Ok ") {
+        let w: Vec<&str> = rest.split(' ').collect();
+        out.check(w[4] == exp.to_string() && w[5] == inc.to_string(), "rrsig_fields_wrong", &case, &obs);
+    }
+    out.case(&case, &obs, true, "sign_period");
+}
+
 fn main() {
     let a = args();
     let mut out = Out::new(&a, "C12", 120);
@@ -956,11 +1005,13 @@ fn main() {
     let repo = std::env::var("VERIF_REPO").unwrap_or_else(|_| "/repo".to_string());
     // ---- keys (ring): generated Ed25519 / ECDSA P-256 / P-384, RSA imported from the repository's test keys
     let mut keys: Vec<RecKey> = vec![];
+    let mut keygen_failed = 0u64;
     for p in [GenerateParams::Ed25519, GenerateParams::EcdsaP256Sha256, GenerateParams::Ed25519, GenerateParams::EcdsaP256Sha256, GenerateParams::EcdsaP384Sha384, GenerateParams::EcdsaP384Sha384] {
         let flags = if keys.len() % 2 == 0 { 256 } else { 257 };
         match generate(&p, flags).ok().and_then(|(sk, pk)| KeyPair::from_bytes(&sk, &pk).ok()) {
             Some(kp) => keys.push(real_key(kp)),
-            None => out.check(false, "key_generation_failed", &format!("{:?}", p), ""),
+            // the harness could not construct a key (system randomness): counted, not judged
+            None => keygen_failed += 1,
         }
     }
     let mut rsa = 0;
@@ -968,6 +1019,9 @@ fn main() {
         if let Some(kp) = load_bind_key(&repo, base) { keys.push(real_key(kp)); rsa += 1; }
     }
     let n_real = keys.len();
+    // without any real key nothing of the property can be exercised: that is a harness failure worth reporting
+    out.check(n_real > 0, "no_signing_keys", "setup", "neither key generation nor the repository's test keys gave a usable key");
+    if n_real == 0 { out.finish(&[]); return; }
     if std::env::var("C12_TIMING").is_ok() { eprintln!("keys ready"); }
     let mut cx = Ctx { keys, n_sign: 0, n_verify: 0, n_tamper: 0, rejected_gen: 0, dup_views: 0, dup_views_verified: 0, zone_rrsigs: 0 };
 
@@ -1027,6 +1081,13 @@ fn main() {
         let mut rr = r.fork();
         if !out.wants(idx) { continue; }
         run_signer_cases(&mut out, &mut rr);
+    }
+    // ---- validity period across the wrap
+    for _ in 0..(if a.thorough { 6000 } else { 400 } * a.scale) {
+        idx += 1;
+        let mut rr = r.fork();
+        if !out.wants(idx) { continue; }
+        run_period(&mut out, &mut rr);
     }
     // ---- validator signed_data on arbitrary RRSIG fields (labels above, equal, below the owner's; foreign signer)
     for _ in 0..(if a.thorough { 8000 } else { 500 } * a.scale) {
@@ -1135,7 +1196,7 @@ fn main() {
     }
     let extra = [("rrsets_signed", format!("{}", cx.n_sign)), ("verifications", format!("{}", cx.n_verify)),
         ("alterations", format!("{}", cx.n_tamper)), ("real_keys", format!("{}", n_real)), ("rsa_keys", format!("{}", rsa)),
-        ("bind_known_answers", format!("{}", known)), ("generator_rejected", format!("{}", cx.rejected_gen)),
+        ("bind_known_answers", format!("{}", known)), ("key_generation_failed", format!("{}", keygen_failed)), ("generator_rejected", format!("{}", cx.rejected_gen)),
         ("zone_rrsigs_verified", format!("{}", cx.zone_rrsigs)), ("duplicate_rr_views", format!("{}", cx.dup_views)),
         ("duplicate_rr_views_that_verified", format!("{}", cx.dup_views_verified))];
     out.finish(&extra);
